@@ -68,7 +68,7 @@ def run_one(name: str, path: str, props: list[str], budget: float, tests: bool, 
             t0 = time.time()
             env = dict(os.environ, VERIF_REPO_SRC=scratch + "/src", VERIF_SEED=str(seed), PYTHONHASHSEED="0")
             r = subprocess.run([PY, os.path.join(HERE, "check.py"), pid, "--tier", "quick", "--no-evidence",
-                                "--budget", str(budget), "--workers", str(WORKERS)],
+                                "--workers", str(WORKERS)] + (["--budget", str(budget)] if budget else []),
                                capture_output=True, text=True, env=env, timeout=1800)
             viol = [l for l in r.stdout.splitlines() if l.startswith("VIOLATION")]
             sigs = []
@@ -96,7 +96,7 @@ def main() -> int:
     ap.add_argument("--only", default="")
     ap.add_argument("--props", default="")
     ap.add_argument("--tests", action="store_true")
-    ap.add_argument("--budget", type=float, default=20)
+    ap.add_argument("--budget", type=float, default=0, help="0 = the tier's own budget")
     ap.add_argument("--jobs", type=int, default=1)
     ap.add_argument("--seed", type=int, default=0)
     a = ap.parse_args()
@@ -113,6 +113,8 @@ def main() -> int:
             continue
         if name.startswith("seeded-"):
             meta = json.load(open(os.path.join(os.path.dirname(path), "meta.json")))
+            if meta.get("obsolete"):
+                continue  # superseded by a repair of /repo (see meta.json)
             props = meta.get("check_with", [meta["property"]])
         else:
             props, _ = read_patch(path)
